@@ -6,4 +6,5 @@ import (
 	_ "verif/harness/props/c05"
 	_ "verif/harness/props/c09"
 	_ "verif/harness/props/c10"
+	_ "verif/harness/props/c17"
 )
